@@ -165,6 +165,12 @@ pub trait P {
     }
 }
 
+/// A trait with a generic method: every instantiation is a distinct mocked method (C18).
+#[unimock(api=GMock)]
+pub trait G {
+    fn g<T: core::fmt::Debug + Into<u64> + Copy + 'static>(&self, x: T) -> u32;
+}
+
 pub fn real_unm(_: &impl core::any::Any, x: u8) -> u32 {
     log(LogEv::Real(M::Unm, x));
     maybe_user_panic(x, USER_PANIC_REAL);
